@@ -96,7 +96,27 @@ MACS = [MAC1, "AA:BB:CC:DD:EE:01",          # case variant
         MAC1_SUB]                           # an original equal to an issuable substitute (the guarded case)
 KWS = ["SECRETKW"]
 
-KIND = {}
+# Second token SHAPE: an original with a word character glued to its RIGHT, rendered as one token
+# (`1.2.3.4x`); the unchanged code detects the original inside it (no right-hand boundary in the IPv4 / host
+# patterns, MAC look-ahead only excludes hex digits, ':' and '-') and substitutes it textually, so the expected
+# rendering is `<substitute>x` and the occurrence takes part in every clause like a plain one.
+# Plus a second spelling of a host name of the domain that differs only in letter case (two originals, as for
+# MACs: the unchanged code keeps them apart and issues two substitutes).
+SHAPE = {"1.2.3.4x": ("1.2.3.4", "x"), "192.168.10.5_y": ("192.168.10.5", "_y"),
+         "db.corp.testx": ("db.corp.test", "x"), MAC1 + "x": (MAC1, "x")}
+HOST_CASE_VARIANT = "MAIL.corp.test"
+EXTRA = {"ip": ["1.2.3.4x", "192.168.10.5_y"],
+         "host": [HOST_CASE_VARIANT, "db.corp.testx"],
+         "mk": [MAC1 + "x"],
+         "mixed": ["1.2.3.4x"]}
+
+
+def split_token(tok):
+    """token -> (original, glued right-hand text)"""
+    return SHAPE.get(tok, (tok, ""))
+
+
+KIND = {HOST_CASE_VARIANT: "host"}
 for _t in IPS:
     KIND[_t] = "ip"
 for _t in HOSTS:
@@ -325,7 +345,7 @@ def check_listing(listing, pairs, occurred, clause_pair, clause_only):
 
 
 def observe(event, out):
-    """Positional re-split. Returns list of (token, observed text) or None when the shape is off."""
+    """Positional re-split. Returns list of (original, observed text in its place, glued?) or None when the shape is off."""
     if not isinstance(out, list) or len(out) != len(event):
         return None
     occs = []
@@ -335,7 +355,11 @@ def observe(event, out):
         parts = oline.split(DELIM)
         if len(parts) != len(toks):
             return None
-        occs.extend(zip(toks, parts))
+        for tok, part in zip(toks, parts):
+            orig, glue = split_token(tok)
+            if glue and part.endswith(glue):
+                part = part[:-len(glue)]       # (a rendering that lost the glued text stays whole and will not match)
+            occs.append((orig, part, bool(glue)))
     return occs
 
 
@@ -350,7 +374,7 @@ def oracle(obs, event, out, maps):
                   {"output": out}, []))
         return v, new, info
     # (1) one substitute per original, across all occurrences so far
-    for tok, sub in occs:
+    for tok, sub, glued in occs:
         prev = new.get(tok)
         if prev is None:
             new[tok] = sub
@@ -361,8 +385,10 @@ def oracle(obs, event, out, maps):
             if prev != sub:
                 v.append(("consistency:one-substitute-per-original", {"original": tok, "substitute": prev},
                           {"original": tok, "substitute": sub, "event_output": out}, [tok]))
-        info["tags"].add("%s:%s:%s" % (KIND[tok], rec, "same" if sub == tok else "sub"))
-    pairs = set(new.items()) | set(occs)
+        info["tags"].add("%s:%s:%s%s" % (KIND[tok], rec, "same" if sub == tok else "sub", ":glued" if glued else ""))
+        if glued:
+            info["glued"] = info.get("glued", 0) + 1
+    pairs = set(new.items()) | set((t, s_) for t, s_, _g in occs)
     # (2) distinct originals -> distinct substitutes (IPv4, host names), among replaced originals
     for kind in INJECTIVE_KINDS:
         bysub = {}
@@ -475,7 +501,7 @@ def trigger_features(event, involved, obs_before, maps_after):
     cover_ip, cover_mac, cover_host = set(), set(), set()
     boundary = True
     for line in event:
-        first, last = _positions(line)
+        first, last = _positions([split_token(t)[0] for t in line])
         toks = list(first)
         for a in toks:
             for b in toks:
@@ -565,10 +591,11 @@ def mk_case(hist):
 
 def menu(fam, tier):
     b = BOUNDS[tier]["families"][fam]
-    a = FAMILIES[fam]
+    base = FAMILIES[fam]
+    a = base + EXTRA[fam]           # lines of 1-2 tokens and the 2-line specs use the glued / case-variant tokens too
     evs = []
     for n in range(1, b["line_tokens"] + 1):
-        for toks in itertools.product(a, repeat=n):
+        for toks in itertools.product(a if n <= 2 else base, repeat=n):
             evs.append([list(toks)])
     for x, y in itertools.product(a, repeat=2):
         evs.append([[x], [y]])
@@ -576,7 +603,7 @@ def menu(fam, tier):
 
 
 def event_families(event):
-    return set(TOKEN_FAMILY[KIND[t]] for line in event for t in line)
+    return set(TOKEN_FAMILY[KIND[split_token(t)[0]]] for line in event for t in line)
 
 
 def obs_families(obs):
@@ -713,6 +740,8 @@ def run_unit(unit, tier):
             if info["recurrences"]:
                 res.nontrivial += 1
                 res.stat("recurring_occurrences_compared", info["recurrences"])
+            if info.get("glued"):
+                res.stat("glued_occurrences_observed", info["glued"])
             if info["unreplaced_equal_to_substitute"]:
                 res.stat("transitions_with_unreplaced_original_equal_to_issued_substitute")
             res.outcomes.add(",".join(sorted(info["tags"])))
